@@ -458,6 +458,7 @@ def advAt (a0 : Int) (pre : List WEv) : Int := (maxVals pre).getLast?.getD a0
 /-- The largest limit the peer ever granted (stale/reordered MAX_STREAMS are ignored). -/
 def grantAt (g0 : Int) (pre : List WEv) : Int := (grantVals pre).foldl max g0
 def lcountAt (pre : List WEv) : Int := (pre.filter fun | .localOpen (some _) => true | _ => false).length
+/-- Completely closed PEER-initiated streams (locally initiated ones do not count). -/
 def ccountAt (pre : List WEv) : Int := (pre.filter fun | .closed => true | _ => false).length
 
 /-- The clauses of C21 for one observed event after the prefix `pre` (one stream type). -/
@@ -508,6 +509,7 @@ private theorem wafter_spec (pre : List WEv) : ∀ (st : St),
     | closed =>
       refine ⟨?_, ?_, ?_, ?_, ?_⟩ <;>
         simp [next, advAt, grantAt, lcountAt, ccountAt, maxVals, grantVals] <;> omega
+    | localClosed => simp [next, advAt, grantAt, lcountAt, ccountAt, maxVals, grantVals]
 
 private theorem wrun_check (st : St) (pre : List WEv) (e : WEv) (post : List WEv)
     (h : Model.StreamWire.run st (pre ++ e :: post) = true) : check (after st pre) e = true := by
@@ -541,6 +543,7 @@ theorem wire_monitor_sound (st0 : St) (tr : List WEv) (h : Model.StreamWire.run 
     | some n => simp only [check, b, c, Bool.and_eq_true, decide_eq_true_eq] at hc; exact hc
   | peerMax v => trivial
   | closed => trivial
+  | localClosed => trivial
 
 /-- `grantAt` is the maximum of the initial grant and every MAX_STREAMS the peer sent. -/
 theorem grantAt_spec (g0 : Int) (pre : List WEv) :
@@ -588,6 +591,7 @@ theorem wire_maxStreams_monotone (tr : List WEv) : ∀ (st0 : St), Model.StreamW
     | localOpen res => cases res <;> simpa [maxVals, next] using And.intro i1 i2
     | peerMax v => simpa [maxVals, next] using And.intro i1 i2
     | closed => simpa [maxVals, next] using And.intro i1 i2
+    | localClosed => simpa [maxVals, next] using And.intro i1 i2
 
 end Wire
 
